@@ -351,6 +351,57 @@ def r6_component_queue(ctx, rule="C04.R6"):
 
 
 # ------------------------------------------------------------------------------------------ R7 symlink stack
+def symlink_stack_discipline(ctx, rule="C04.R7"):
+    """The walk keeps the symlink stack in step with the component queue: inside do_resolve the stack is touched only
+    through pop_part (a consumed component) and swap_link (a followed link) -- never re-created, cleared or assigned.
+    (resolve_partial reports (handle, remaining) from the stack's top link, like openat2 does for a dangling link.)"""
+    F = ctx.facts
+    out = []
+    b = F.body("resolvers::opath::imp::do_resolve")
+    cfg = cfg_of(b)
+    SS = "resolvers::opath::symlink_stack::SymlinkStack"
+    allowed = ("::pop_part", "::swap_link")
+    others = [t for t in b.calls(cleanup=False) if (t.callee or "").startswith(SS) and not (t.callee or "").endswith(allowed)]
+    # assignments through the &mut Option<&mut SymlinkStack> parameter
+    writes = []
+    stack_ty = [l for l, ty in enumerate(b.local_tys) if ty and "SymlinkStack" in ty]
+    for blk in b.blocks:
+        if blk.cleanup:
+            continue
+        for s_ in blk.stmts:
+            if s_.kind == "assign" and s_.lhs is not None and not s_.lhs.is_local and s_.lhs.local in stack_ty and "*" in [str(x) for x in s_.lhs.fields() if isinstance(x, str)] :
+                writes.append(blk)
+    key = "do_resolve:symlink-stack-only-pop-and-swap"
+    if others or writes:
+        w = others[0].where() if others else b.where()
+        out.append(violated(rule, key, w, "the walk re-creates / assigns the symlink stack (%s): the (handle, remaining) reported for a dangling link no longer matches openat2" % (", ".join(sorted({t.callee.rsplit('::', 1)[-1] for t in others})) or "store through the stack reference")))
+    else:
+        out.append(holds(rule, key, b.where(), "stack touched only through pop_part/swap_link"))
+    return out
+    # tests `if let Some(stack) = symlink_stack`: the None edges legitimately skip the update
+    none_edges = []
+    for blk in b.blocks:
+        if blk.cleanup or blk.term.kind != "switch":
+            continue
+        d = Operand(blk.term.raw["d"])
+        if d.place is None:
+            continue
+        for o in ctx.tracer.origins(b, blk.idx, len(blk.stmts), d.place):
+            if o.kind == "param" and o.detail == 5:
+                none_edges += [e.key() for e in cfg.succ.get(blk.idx, []) if e.label == ("sw", 0)]
+    hdr = [h for h, blks in loops.items() if pops[0].bb in blks]
+    start = pops[0].target if hasattr(pops[0], "target") else None
+    bad = False
+    if hdr and start is not None:
+        reach = cfg.reachable(start, cut_nodes=marks, cut_edges=none_edges, through_start=True)
+        # a back edge source reachable without an update (and with a stack present)?
+        back = [e for e in cfg.back_edges() if e.dst in hdr]
+        bad = any(e.src in reach and e.src not in marks for e in back)
+    (out.append(violated(rule, key2, pops[0].where(), "an iteration of the walk can consume a component without pop_part/swap_link although a symlink stack was supplied")) if bad else
+     out.append(holds(rule, key2, pops[0].where(), "with a stack supplied, every path back to the loop header passes pop_part or swap_link")))
+    return out
+
+
 def r7_symlink_stack_tables(ctx, rule="C04.R7"):
     """Writer/reader agreement of the symlink stack: the components do_push() drops from a recorded link body are
     exactly those the walk never pops ('' is walked as '.', and do_pop() ignores '.'); '..' is recorded and popped."""
@@ -386,6 +437,7 @@ def r7_symlink_stack_tables(ctx, rule="C04.R7"):
         out.append(violated(rule, "symlink-stack:noop-components", pb.where(),
                             "do_push drops %s from recorded link bodies but the walk never pops %s: the stack desynchronises from the walk and partial lookups "
                             "(mkdir_all through such a link) fail or report the wrong remainder on the emulated backend only" % (sorted(dropped), sorted(want_dropped))))
+    out.extend(symlink_stack_discipline(ctx, rule))
     return out
 
 
